@@ -168,8 +168,12 @@ def _leaf_dist(leaf, th_i, d):
 def population_case(ctx, rng, idx):
     n = _n(ctx)
     n_ids_h = int(rng.integers(2, 6))
-    mode = ['leaf', 'leaf', 'cov', 'composed', 'reduced'][idx % 5]
-    if mode == 'leaf':
+    mode = ['leaf', 'leaf', 'cov', 'composed', 'reduced', 't_mixed'][idx % 6]
+    if mode == 't_mixed':
+        # truncated Gaussian whose dimensions are in different regimes
+        # (means far above zero next to means close to zero)
+        leaves = [GP.make_leaf('T', int(rng.integers(2, 4)))]
+    elif mode == 'leaf':
         leaves = [GP.random_leaf(rng, n_ids_h, p_cov=0.0)]
     elif mode == 'cov':
         leaves = [GP.random_leaf(rng, n_ids_h, kinds='GLT', p_cov=1.0)]
@@ -186,6 +190,13 @@ def population_case(ctx, rng, idx):
         return
     top = np.concatenate([GP.leaf_top(rng, l, n_ids_h, strong_cov=True)
                           for l in leaves])
+    if mode == 't_mixed':
+        d_ = leaves[0].n_dim
+        sd_ = rng.uniform(0.3, 2.0, d_)
+        ratio = rng.uniform(-1.0, 2.0, d_)
+        far = rng.permutation(d_) < int(rng.integers(1, d_))
+        ratio[far] = rng.uniform(10, 40, int(np.sum(far)))
+        top = np.concatenate([sd_ * ratio, sd_])
     scale_cov = 1.0
     free = np.ones(len(top), dtype=bool)
     if mode == 'reduced':
@@ -266,6 +277,18 @@ def population_case(ctx, rng, idx):
             lcov = cov[:, ic:ic + l.n_cov()]
             ic += l.n_cov()
         code = GP.leaf_code(l).rstrip('0123456789')
+        if l.kind == 'H' and not l.cov:
+            # the density is a point mass on each individual's whole
+            # parameter VECTOR: a sampled row is one of the rows
+            rows = ltop[:n_ids_h * l.n_dim].reshape(n_ids_h, l.n_dim)
+            blk = psi[:, idim:idim + l.n_dim]
+            ok = (blk[:, None, :] == rows[None, :, :]).all(axis=2).any(axis=1)
+            ctx.count('heterogeneous_rows_checked', len(blk))
+            if not np.all(ok):
+                ctx.violation('support', 'heterogeneous_sample_mixes_rows',
+                              {'rows': rows, 'sampled row that is no row':
+                               blk[int(np.argmin(ok))],
+                               'n_not_a_row': int(np.sum(~ok))}, feats)
         for d in range(l.n_dim):
             col = psi[:, idim + d]
             if l.kind == 'P':
